@@ -1582,9 +1582,17 @@ def oracle(sc, obs, crash):
                   "msg": f"{crash['exc']}: {crash.get('msg', '')} at {crash['where']} (request attacks {first['req']['attacks']}, "
                          f"response attacks {first['resp']['attacks']})"})
         return v, probes
+    peer_dead = False
     for msg, o in zip(sc["messages"], obs):
         if not o["req_sent"]:
             continue
+        if peer_dead:
+            # an earlier (adversarial) exchange made one of OUR peers give up its connection: what happens to later
+            # exchanges on that connection says nothing about mitmproxy
+            probe("skipped_after_peer_gave_up")
+            continue
+        if o["up_strict_error"] or o["down_strict_error"]:
+            peer_dead = True
         delivered = judge_request(sc, msg, o, add, probe)
         if delivered and o["resp_sent"]:
             judge_response(sc, msg, o, add, probe)
